@@ -32,7 +32,7 @@ PROPERTY = {
 
 BACKENDS = ["default", "torch", "jax", "fortran"]
 SOLVERS = ["euler", "heun", "scipy", "diffrax", "bogus_solver"]
-DELAYS = ["none", "discrete", "spread", "past"]
+DELAYS = ["none", "discrete", "spread", "past", "discrete_then_spread"]
 
 V = lambda n: ["var", n]  # noqa: E731
 
@@ -44,12 +44,19 @@ def matrix_spec(delay):
     ops = {"op0": {"vars": [["x", "state", 0.3], ["a", "const", 1.0], ["u", "input", 0.1]],
                    "eqs": [["x", True, rhs, 0]], "out": "x"}}
     e = {"s": "p0/op0/x", "t": "p1/op0/u", "w": 2.0, "d": None, "sp": None, "et": None, "scope": ""}
-    if delay == "discrete":
+    edges = [e]
+    nodes = [["p0", "nt0"], ["p1", "nt1"]]
+    if delay in ("discrete", "discrete_then_spread"):
         e["d"] = 0.03
     elif delay == "spread":
         e["d"], e["sp"] = 0.2, 0.1
-    return {"ops": ops, "ntypes": {"nt0": {"ops": ["op0"], "ov": {}}, "nt1": {"ops": ["op0"], "ov": {"op0": {"x": 0.5}}}},
-            "nodes": [["p0", "nt0"], ["p1", "nt1"]], "edges": [e], "etypes": {}}
+    ntypes = {"nt0": {"ops": ["op0"], "ov": {}}, "nt1": {"ops": ["op0"], "ov": {"op0": {"x": 0.5}}}}
+    if delay == "discrete_then_spread":
+        # a discrete-delay edge leaving an earlier node and a gamma-kernel edge leaving a later node
+        ntypes["nt2"] = {"ops": ["op0"], "ov": {"op0": {"x": 0.7}}}
+        nodes.append(["p2", "nt2"])
+        edges.append({"s": "p1/op0/x", "t": "p2/op0/u", "w": 1.5, "d": 0.2, "sp": 0.1, "et": None, "scope": ""})
+    return {"ops": ops, "ntypes": ntypes, "nodes": nodes, "edges": edges, "etypes": {}}
 
 
 def supported(backend):
@@ -96,7 +103,8 @@ class MatrixArm(Arm):
             reasons.append(f"solver {s} not in SUPPORTED_SOLVERS{sup} of {b}")
         if b == "fortran" and vec:
             reasons.append("vectorize=True with the fortran backend")
-        if d == "discrete" and s in ("euler", "heun") and not getattr(cls, "SUPPORTS_EDGE_DELAY_BUFFER", True):
+        if d in ("discrete", "discrete_then_spread") and s in ("euler", "heun") and \
+                not getattr(cls, "SUPPORTS_EDGE_DELAY_BUFFER", True):
             reasons.append(f"discrete-delay ring buffer on {b} (immutable arrays)")
         if sparse and not getattr(cls, "SUPPORTS_SPARSE_JACOBIAN", True):
             reasons.append(f"sparse Jacobian on {b}")
@@ -135,7 +143,8 @@ class MatrixArm(Arm):
             return res
         # attributable: the nearest valid configuration must work
         if not (b == "fortran" and case["tier"] == "quick"):
-            base_solver = "scipy" if (d == "discrete" and not getattr(cls, "SUPPORTS_EDGE_DELAY_BUFFER", True)) else "euler"
+            base_solver = "scipy" if (d in ("discrete", "discrete_then_spread") and
+                                      not getattr(cls, "SUPPORTS_EDGE_DELAY_BUFFER", True)) else "euler"
             try:
                 run_circuit(spec, T, dt, dict(outputs), solver=base_solver, backend=b,
                             vectorize=False if b == "fortran" else vec,
@@ -155,6 +164,71 @@ class MatrixArm(Arm):
         res.violate(f"no-raise:{'+'.join(sorted(r.split(' ')[0] for r in reasons))}:{b}",
                     f"run(backend={b}, solver={s}, vectorize={vec}, delay={d}) returned a {type(df).__name__} of shape "
                     f"{getattr(df, 'shape', None)} although: {'; '.join(reasons)}")
+        return res
+
+    def sample(self, case):
+        return case
+
+
+class MatrixHistoryArm(Arm):
+    """The same matrix walked in ONE process: first every valid (backend, supported solver) cell, then every must-raise
+    cell - a guard that remembers what an earlier call accepted must not let a later unsupported request through."""
+    name = "matrix_history"
+    exhaustive = True
+    max_shards = 1
+    budget = {"quick": 0, "thorough": 0}
+    case_timeout = 900
+
+    def enumerate(self, ctx):
+        yield {"history": "valid-cells-then-must-raise-cells", "tier": ctx.tier}
+
+    def run(self, case, ctx):
+        res = CaseResult()
+        res.nontrivial = True
+        spec = matrix_spec("none")
+        outputs = {"a": "p0/op0/x", "b": "p1/op0/x"}
+        dt, T = 0.01, 0.05
+        backends = [b for b in BACKENDS if not (b == "fortran" and case["tier"] == "quick")]
+        n_valid = 0
+        for b in backends:
+            cls = supported(b)
+            if cls is None:
+                continue
+            for s in getattr(cls, "SUPPORTED_SOLVERS", ()):
+                if s not in SOLVERS:
+                    continue
+                try:
+                    run_circuit(spec, T, dt, dict(outputs), solver=s, backend=b, vectorize=False,
+                                **(dict(method="RK45") if s == "scipy" else {}))
+                    n_valid += 1
+                except HarnessError:
+                    raise
+                except Exception:
+                    pass
+        res.info["valid_cells_run"] = n_valid
+        n_checked = 0
+        for b in backends:
+            cls = supported(b)
+            if cls is None:
+                continue
+            sup = tuple(getattr(cls, "SUPPORTED_SOLVERS", ()))
+            for s in SOLVERS:
+                if s in sup:
+                    continue
+                n_checked += 1
+                try:
+                    df = run_circuit(spec, T, dt, dict(outputs), solver=s, backend=b, vectorize=False)
+                except HarnessError:
+                    raise
+                except Exception:
+                    continue
+                res.violate(f"no-raise-after-history:{b}:{s}",
+                            f"after valid runs of every supported (backend, solver) pair in the same process, "
+                            f"run(backend={b}, solver={s}) returned a {type(df).__name__} although {s} is not in "
+                            f"SUPPORTED_SOLVERS{sup}")
+                return res
+        res.info["must_raise_cells_checked"] = n_checked
+        res.labels = ["history"]
         return res
 
     def sample(self, case):
@@ -389,4 +463,4 @@ def _build(m):
         M.build_operator = orig
 
 
-ARMS = [MatrixArm(), MutantArm()]
+ARMS = [MatrixArm(), MatrixHistoryArm(), MutantArm()]
